@@ -111,7 +111,8 @@ def literal_obligations(chk):
     I.hooks["equal"] = equal_hook
     # loops over the declared values (early return on the first equal literal): trivial invariants
     # the inner loop over the declared values (early return on the first equal literal): trivial invariant
-    I.loop_specs[(func, 1)] = LoopSpec("literals", lambda I, p, e, k_: None, lambda I, p, e, k_: [])
+    I.loop_specs[(func, 1)] = LoopSpec("literals-of-the-same-class", lambda I, p, e, k_: None, lambda I, p, e, k_: [])
+    I.loop_specs[(func, 2)] = LoopSpec("literals", lambda I, p, e, k_: None, lambda I, p, e, k_: [])
 
     def mk(I, path):
         t = path.fresh("t")
